@@ -97,20 +97,22 @@ func pathStrings() []string {
 	rec(nil, 0)
 	// wildcards (mget-style clients): a server that expands them must expand them inside the root
 	out = append(out, "*", "../*", "../../*", "/../../../*", "../../../*.txt", "a/../../*", "?", "../?*", "[a-z]*", "../[a-z0-9]*/*")
-	out = append(out, "", "/", "//", "....", "..;", "a..", "..a", "a/..../b", "../" + strings.Repeat("x", 255), strings.Repeat("../", 40) + "etc/passwd", "/" + strings.Repeat("../", 40) + "etc/passwd",
+	out = append(out, "", "/", "//", "....", "..;", "a..", "..a", "a/..../b", "../"+strings.Repeat("x", 255), strings.Repeat("../", 40)+"etc/passwd", "/"+strings.Repeat("../", 40)+"etc/passwd",
 		"a\\..\\..", "..\\..", "a/./../../..", "\x00", "a\x00/../..", "%2e%2e/%2e%2e", "..%2f..", "~", "~root", "a//..//..//..")
 	return out
 }
 
-func inside(root, p string) bool { return p == root || strings.HasPrefix(p, root+string(filepath.Separator)) }
+func inside(root, p string) bool {
+	return p == root || strings.HasPrefix(p, root+string(filepath.Separator))
+}
 
 type directObs struct {
-	Calls     int            `json:"calls"`
-	Resolved  int            `json:"resolved"`
-	Cwds      int            `json:"cwds"`
-	Classes   map[string]int `json:"classes"`
-	Examples  map[string]string `json:"examples"`
-	Paths     int            `json:"path_strings"`
+	Calls    int               `json:"calls"`
+	Resolved int               `json:"resolved"`
+	Cwds     int               `json:"cwds"`
+	Classes  map[string]int    `json:"classes"`
+	Examples map[string]string `json:"examples"`
+	Paths    int               `json:"path_strings"`
 }
 
 func childDirect(o *core.Obs) {
@@ -180,7 +182,30 @@ type cmd struct {
 	Arg2 string `json:"arg2,omitempty"`
 }
 
+// sparseSeqs are played against a root that holds one empty directory "a" only: a client can empty the root, and the
+// root directory itself is not inside the root - removing or renaming it changes the directory above.
+var sparseSeqs = [][]cmd{
+	{{Verb: "RMD", Arg: "/"}},
+	{{Verb: "DELE", Arg: "/"}},
+	{{Verb: "RMD", Arg: "a"}, {Verb: "RMD", Arg: "/"}},
+	{{Verb: "RMD", Arg: "a"}, {Verb: "DELE", Arg: "/"}},
+	{{Verb: "RMD", Arg: "a"}, {Verb: "RMD", Arg: "."}},
+	{{Verb: "RMD", Arg: "a"}, {Verb: "RMD", Arg: "//"}},
+	{{Verb: "RMD", Arg: "a"}, {Verb: "RMD", Arg: "/a/.."}},
+	{{Verb: "RMD", Arg: "a"}, {Verb: "RMD", Arg: "../.."}},
+	{{Verb: "RMD", Arg: "/a"}, {Verb: "CDUP"}, {Verb: "RMD", Arg: ""}},
+	{{Verb: "CWD", Arg: "a"}, {Verb: "RMD", Arg: "/a"}, {Verb: "RMD", Arg: ".."}, {Verb: "PWD"}},
+	{{Verb: "RN", Arg: "/", Arg2: "/a/x"}},
+	{{Verb: "RN", Arg: "/", Arg2: "../moved"}},
+	{{Verb: "RN", Arg: "a", Arg2: "/"}},
+	{{Verb: "RMD", Arg: "a"}, {Verb: "RN", Arg: ".", Arg2: "x"}},
+	{{Verb: "RMD", Arg: "a"}, {Verb: "DELE", Arg: "."}, {Verb: "MKD", Arg: "b"}, {Verb: "LIST", Arg: ""}},
+}
+
 func mkSeq(seed int64, idx int) (start string, cs []cmd, passive bool) {
+	if idx%12 == 11 {
+		return "/", sparseSeqs[(idx/12)%len(sparseSeqs)], idx%24 == 11
+	}
 	r := core.NewRng(seed, "C11/e2e", idx)
 	start = r.PickS([]string{"/", "/a", "/b", "/a/a"})
 	verbs := []string{"CWD", "CDUP", "PWD", "MKD", "RMD", "DELE", "RN", "STOR", "APPE", "RETR", "LIST", "NLST", "MDTM", "SIZE"}
@@ -322,11 +347,16 @@ func childE2E(b core.Batch, p params, o *core.Obs) {
 		// reset the tree inside the root
 		os.RemoveAll(root)
 		os.MkdirAll(root, 0700)
-		for _, d := range []string{"a", "b", "a/a", "a/b"} {
-			os.MkdirAll(filepath.Join(root, d), 0755)
+		if (p.Off+k)%12 == 11 {
+			os.MkdirAll(filepath.Join(root, "a"), 0755) // sparse root, see sparseSeqs
+		} else {
+			for _, d := range []string{"a", "b", "a/a", "a/b"} {
+				os.MkdirAll(filepath.Join(root, d), 0755)
+			}
+			os.WriteFile(filepath.Join(root, "f.txt"), []byte("inside-f"), 0644)
+			os.WriteFile(filepath.Join(root, "a", "f.txt"), []byte("inside-a-f"), 0644)
 		}
-		os.WriteFile(filepath.Join(root, "f.txt"), []byte("inside-f"), 0644)
-		os.WriteFile(filepath.Join(root, "a", "f.txt"), []byte("inside-a-f"), 0644)
+		rootBefore, _ := os.Lstat(root)
 		start, cs, passive := mkSeq(b.Seed, p.Off+k)
 		ob := e2eObs{Start: start, Cmds: cs, Passive: passive}
 		o.Begin(k)
@@ -466,6 +496,10 @@ func childE2E(b core.Batch, p params, o *core.Obs) {
 			os.Stat(fmt.Sprintf("%s%d", markEnd, k))
 		}
 		ob.SnapDiff = diffSnap(before, snap(base, root))
+		// the root directory itself is an entry of the directory above it
+		if ri, err := os.Lstat(root); err != nil || !ri.IsDir() || !os.SameFile(ri, rootBefore) {
+			ob.SnapDiff = append([]string{"removed-root ftp/" + rootName + " (the root directory itself; an entry of the directory above it)"}, ob.SnapDiff...)
+		}
 		// repair the sentinel tree if it was damaged so later sequences are judged on their own
 		if len(ob.SnapDiff) > 0 {
 			os.WriteFile(filepath.Join(base, "secret.txt"), []byte("SENTINEL-SECRET-0"), 0644)
